@@ -175,7 +175,7 @@ Section DataProof.
     exists t, ti. split; [reflexivity|]. split; [reflexivity|].
     destruct (t_pc t) as [pc|pc|] eqn:Epc; [| |discriminate].
     - right.
-      destruct (match nth pc mprog MNop with MGate => gate_closed x ti | _ => false end); [discriminate|].
+      destruct (match nth pc mprog MNop with MGate => gate_closed x ti | MRelay => relay_closed ti | _ => false end); [discriminate|].
       match type of H with context [cstep g (x_sys x) (i, ?c)] => set (c0 := c) in * end.
       destruct (cstep g (x_sys x) (i, c0)) as [s'|] eqn:Es; [|discriminate].
       exists pc, c0, s'. split; [reflexivity|]. split; [exact Es|].
